@@ -7,6 +7,7 @@ package c19
 import (
 	"context"
 	"fmt"
+	"regexp"
 	"sort"
 	"strings"
 	"sync"
@@ -143,10 +144,10 @@ func mutate(md *resource.Metadata, res resource.Resource, field string) {
 // stack abstracts the three ways a caller reaches the store.
 type stack struct {
 	name    string
-	st      state.State                   // API used by the program
-	base    state.State                   // independent access for snapshots
-	cache   *verif.ResourceCache          // non-nil: reads go through the runtime cache
-	replica map[string]resource.Resource  // fed from a kind watch on base
+	st      state.State                  // API used by the program
+	base    state.State                  // independent access for snapshots
+	cache   *verif.ResourceCache         // non-nil: reads go through the runtime cache
+	replica map[string]resource.Resource // fed from a kind watch on base
 	mu      sync.Mutex
 }
 
@@ -241,13 +242,13 @@ func (s *stack) get(ctx context.Context, ptr resource.Pointer) (resource.Resourc
 	return s.st.Get(ctx, ptr)
 }
 
-func (s *stack) list(ctx context.Context) (resource.List, error) {
+func (s *stack) list(ctx context.Context, opts ...state.ListOption) (resource.List, error) {
 	kind := resource.NewMetadata(ns, vh.IntType, "", resource.VersionUndefined)
 	if s.cache != nil {
-		return s.cache.List(ctx, kind)
+		return s.cache.List(ctx, kind, opts...)
 	}
 
-	return s.st.List(ctx, kind)
+	return s.st.List(ctx, kind, opts...)
 }
 
 func runProgram(t *testing.T, tr *vh.Trace, tid string, stackName string, prog []Cmd) {
@@ -306,6 +307,18 @@ func runProgram(t *testing.T, tr *vh.Trace, tid string, stackName string, prog [
 			log("api", c)
 		case "list":
 			if l, err := s.list(ctx); err == nil && len(l.Items) > 0 {
+				hs[c.H] = held{res: l.Items[len(l.Items)-1]}
+			}
+
+			log("api", c)
+		case "listlabel", "listid":
+			// filtered lists take their own path through every implementation (and through the runtime cache)
+			opt := state.WithLabelQuery(resource.LabelExists("base"))
+			if c.Op == "listid" {
+				opt = state.WithIDQuery(resource.IDRegexpMatch(regexp.MustCompile("^[ab]$")))
+			}
+
+			if l, err := s.list(ctx, opt); err == nil && len(l.Items) > 0 {
 				hs[c.H] = held{res: l.Items[len(l.Items)-1]}
 			}
 
